@@ -33,7 +33,28 @@ func exec(c rungraph.Case) (v ev.Verdict) {
 		return ev.Verdict{Skip: "too-many-paths"}
 	}
 	cyclic := c.HasCycle()
+	// dependencies that name nothing: their load fails
+	missing := false
+	seen := map[int]bool{}
+	var walk func(i int)
+	walk = func(i int) {
+		if i >= len(c.Nodes) || c.Nodes[i].Unknown {
+			missing = true
+			return
+		}
+		if seen[i] {
+			return
+		}
+		seen[i] = true
+		for _, d := range c.Deps(i) {
+			walk(d)
+		}
+	}
+	walk(c.Root)
 	o := rungraph.Execute(&c, 30*time.Second)
+	if missing {
+		v.Classes = append(v.Classes, "missing-dependency")
+	}
 	v.Classes = append(v.Classes, "mode:"+c.Pol.Mode, fmt.Sprintf("limit:%d", o.Limit))
 	if o.Res.TimedOut {
 		fmt.Printf("INCONCLUSIVE %+v\n%s\n", c, o.Res.Report)
@@ -56,7 +77,9 @@ func exec(c rungraph.Case) (v ev.Verdict) {
 		if o.RunErr == nil {
 			return ev.Failf("cycle-not-reported", "the reachable graph has a cycle but Run succeeded")
 		}
-		if len(o.CycleErrs) == 0 {
+		// (with a missing dependency next to the cycle a runner may stop before it ever visits the cycle: the build
+		// fails, with the load error)
+		if len(o.CycleErrs) == 0 && !missing {
 			return ev.Failf("cycle-not-reported", "the reachable graph has a cycle, Run failed with %v, but no target received a CyclicDependencyError", o.RunErr)
 		}
 		if o.MaxConcurrentET >= 2 {
@@ -67,7 +90,7 @@ func exec(c rungraph.Case) (v ev.Verdict) {
 		if len(o.CycleErrs) > 0 {
 			return ev.Failf("false-cycle", "acyclic graph but a cyclic-dependency error was reported: %v", o.CycleErrs)
 		}
-		if o.RunErr != nil {
+		if o.RunErr != nil && !missing {
 			return ev.Failf("false-failure", "acyclic graph without failing targets but Run failed: %v", o.RunErr)
 		}
 		if c.Depth() >= 3 {
@@ -89,6 +112,21 @@ func gen(t *rapid.T) rungraph.Case {
 		}
 	} else {
 		nodes = rungraph.GenDigraph(t, 10)
+	}
+	if rapid.IntRange(0, 2).Draw(t, "missing") == 2 {
+		// 1-5 dependencies that name nothing: every failed load must give its slot back
+		known := len(nodes)
+		for k, n := 0, rapid.IntRange(1, 5).Draw(t, "nmissing"); k < n; k++ {
+			nodes = append(nodes, rungraph.Node{Unknown: true})
+			i := rapid.IntRange(0, known-1).Draw(t, "missingof")
+			if len(nodes[i].Reqs) == 0 {
+				nodes[i].Reqs = [][]int{{}}
+			}
+			pos := rapid.IntRange(0, len(nodes[i].Reqs[0])).Draw(t, "missingpos")
+			r := append([]int{}, nodes[i].Reqs[0][:pos]...)
+			r = append(r, known+k)
+			nodes[i].Reqs[0] = append(r, nodes[i].Reqs[0][pos:]...)
+		}
 	}
 	return rungraph.Case{Nodes: nodes, Root: 0, Pol: rungraph.GenPolicy(t, 2)}
 }
